@@ -15,6 +15,8 @@ class C08Spec(explore.Spec):
         for v in ("2.0", "2.1", "2.2"):
             for nc in NODE_CFGS:
                 out.append({"version": v, "cb": None, "nodecfg": nc})
+        # the periodic save runs between withholding and wake-up: saving must not disturb the live smart-sleep state
+        out += [{"version": "2.2", "cb": None, "nodecfg": "equal", "persistence": fmt, "depth": 3} for fmt in ("pickle", "json")]
         return out
 
     def make_world(self, cfg):
@@ -37,6 +39,8 @@ class C08Spec(explore.Spec):
             ("set", 1, 0, 2, "bad"),
             ("fw", 1, 1, 1, "F1"),
         ]
+        if cfg.get("persistence"):
+            extra.append(("tick",))
         for ev in alpha.events(v, NAMES) + extra:
             if ev not in evs:
                 evs.append(ev)
@@ -68,12 +72,114 @@ ASSUMPTIONS = [
 ]
 
 
+# -- part (b): the controller's thread withholds something while the poll thread flushes the node's queue (E2) ------
+
+B_SCENARIOS = {
+    # name: controller calls (each ends in a presentation request that is withheld for the sleeping node 1)
+    "flush-vs-is_sensor": [("is_sensor", 1, 9)],
+    "flush-vs-set-unknown-child": [("set", 1, 9, 2, "1")],
+    "flush-vs-two-requests": [("is_sensor", 1, 9), ("is_sensor", 1, 8)],
+}
+WITHHELD = ["1;255;3;0;6;M\n", "1;255;3;0;1;"]  # config reply; the time reply's payload is the clock
+
+
+def _b_run_one(name, prefix):
+    from .. import sched as S
+    from .c16 import Conn
+
+    from mysensors.gateway_serial import SerialGateway
+
+    S.install_library_shims()
+    calls = B_SCENARIOS[name]
+    gw = SerialGateway("/dev/verif", protocol_version="2.2")
+    for line in ("1;255;0;0;17;2.2", "1;0;0;0;3;light", "1;0;1;0;2;1", "1;255;3;0;32;500", "1;255;3;0;6;0", "1;255;3;0;1;"):
+        gw.logic(line)  # node 1 asleep, two replies withheld
+    gw.tasks.queue.clear()
+    sched = S.Scheduler(prefix, trace_files=("mysensors/handler.py", "mysensors/__init__.py"), horizon=5000)
+    log = sched.log
+    gw.tasks.transport._connect = lambda tr: None
+    gw.tasks.transport.protocol.connection_made(Conn(log, "c0"))
+    S.PUMP_TASKS[0] = gw.tasks
+    proto = gw.tasks.transport.protocol
+
+    def body():
+        def pump():
+            try:
+                gw.tasks._poll_queue()
+            except Exception as exc:  # pylint: disable=broad-except
+                log.append(("pump-raised", type(exc).__name__, str(exc)[:120], S._site(exc)))
+
+        def controller():
+            for call in calls:
+                try:
+                    if call[0] == "is_sensor":
+                        gw.is_sensor(*call[1:])
+                    else:
+                        gw.set_child_value(*call[1:])
+                except Exception as exc:  # pylint: disable=broad-except
+                    log.append(("call-raised", type(exc).__name__, str(exc)[:120], S._site(exc)))
+
+        proto.handle_line("1;255;3;0;32;500")  # the wake-up that flushes
+        t0 = sched.spawn(pump, "pump")
+        t1 = sched.spawn(controller, "controller")
+        sched.block(lambda: not t1.alive and (not gw.tasks.queue or not t0.alive), ("join",))
+        gw.tasks._stop_event.set()
+        sched.block(lambda: all(not t.alive for t in sched.threads[1:]), ("join-rest",))
+
+    sched.run(body)
+    # sequential epilogue: one more wake-up; whatever was withheld during the first flush must come out now
+    findings = []
+    if sched.problem is None and not any(e[0] == "pump-raised" for e in log):
+        first = [e[2].decode() for e in log if e[0] == "write"]
+        reply = gw.logic("1;255;3;0;32;500")
+        second = [reply] if reply else []
+        while gw.tasks.queue:
+            out = gw.tasks.run_job()
+            if out:
+                second.append(out)
+        both = first + second
+        want_requests = len(calls)
+        got_requests = sum(1 for x in both if x == "1;255;3;0;19;\n")
+        if got_requests != want_requests:
+            findings.append(("withheld-not-exactly-once", f"{want_requests} presentation request(s) were withheld for the sleeping node while its queue was being flushed, {got_requests} reached it over this and the next wake-up (first {first}, second {second})"))
+        for w in WITHHELD:
+            n = sum(1 for x in both if x.startswith(w))
+            if n != 1:
+                findings.append(("withheld-not-exactly-once", f"withheld reply {w!r} emitted {n} times over two wake-ups"))
+        held = [x for x in first if x.startswith(tuple(WITHHELD))]
+        if [x[:12] for x in held] != [w[:12] for w in WITHHELD if any(h.startswith(w) for h in held)]:
+            findings.append(("withheld-order", f"withheld replies left in the order {held}"))
+    sched.findings = findings
+    return sched
+
+
+B_RULE = (
+    "poll thread flushing the withheld queue of sleeping node 1 at its wake-up (two replies held) against the controller's "
+    "thread calling is_sensor / set_child_value for an unknown child of that node (each withholds one presentation request); "
+    "every schedule up to the preemption bound at line granularity of handler.py and __init__.py; then one more wake-up "
+    "sequentially; oracle: every withheld line reaches the node exactly once over the two wake-ups, held replies in order"
+)
+
+
 def run(tier):
+    from .. import tvp
+
     spec = C08Spec()
+
+    def post(report):
+        cov = tvp.run_scenarios(report, PROP, "c08b", _b_run_one, list(B_SCENARIOS), 1 if tier == "quick" else 2, 60 if tier == "quick" else 900, B_RULE)
+        report.coverage["threaded_flush"] = cov
+        report.coverage["schedules"] = cov["schedules"]
+        report.coverage.setdefault("caps_hit", []).extend(cov["caps_hit"])
+
     if tier == "quick":
-        return e1check.run_e1(spec, tier, depth=4, state_budget=600000, time_budget=150, rule=RULE, assumptions=ASSUMPTIONS)
-    return e1check.run_e1(spec, tier, depth=6, state_budget=3000000, time_budget=1800, rule=RULE, assumptions=ASSUMPTIONS)
+        return e1check.run_e1(spec, tier, depth=4, state_budget=600000, time_budget=150, rule=RULE, assumptions=ASSUMPTIONS, post=post)
+    return e1check.run_e1(spec, tier, depth=6, state_budget=3000000, time_budget=1800, rule=RULE, assumptions=ASSUMPTIONS, post=post)
 
 
 def replay(data):
+    if data["replay"].get("kind") == "schedule":
+        from .. import tvp
+
+        return tvp.replay_schedule(_b_run_one, data["replay"], PROP)
     return e1check.replay_history(C08Spec(), data)
